@@ -10,7 +10,10 @@ import tempfile
 import zlib
 from pathlib import Path
 
-HEADER = '''from inline_snapshot import snapshot, outsource, customize_repr
+HEADER = '''"""generated module: a docstring and a __future__ import come first - added imports go behind them"""
+from __future__ import division
+
+from inline_snapshot import snapshot, outsource, customize_repr
 import collections
 from collections import OrderedDict, defaultdict      # generated names must resolve in the module's namespace
 import dataclasses
